@@ -242,36 +242,5 @@ def generic_for_loops(inv_fixed, on_elem=None):
 
 
 def module_state_used(qualname):
-    """names of module-level MUTABLE containers (dict / list / set literals or constructor calls, caches) that the function body
-    refers to, and caching decorators on it: a function that is specified as a function of its arguments must not use any"""
-    import ast
-    fn, _, _ = intake.func(qualname)
-    mod = qualname.split('.')[0]
-    tree = intake.module_ast(mod)[1]
-    mutable = set()
-    for node in tree.body:
-        tgts, val = [], None
-        if isinstance(node, ast.Assign):
-            tgts, val = node.targets, node.value
-        elif isinstance(node, ast.AnnAssign) and node.value is not None:
-            tgts, val = [node.target], node.value
-        if val is None:
-            continue
-        is_mut = isinstance(val, (ast.Dict, ast.List, ast.Set, ast.DictComp, ast.ListComp, ast.SetComp)) or (
-            isinstance(val, ast.Call) and ast.unparse(val.func).split('.')[-1] in ('dict', 'list', 'set', 'OrderedDict', 'defaultdict', 'deque', 'WeakValueDictionary'))
-        if is_mut:
-            for t in tgts:
-                if isinstance(t, ast.Name) and t.id != '__all__':
-                    mutable.add(t.id)
-    local = {a.arg for a in fn.args.args + fn.args.kwonlyargs}
-    used = set()
-    for n in ast.walk(fn):
-        if isinstance(n, ast.Name) and n.id in mutable and n.id not in local:
-            used.add(n.id)
-        if isinstance(n, ast.Global):
-            used.update(n.names)
-    for d in fn.decorator_list:
-        txt = ast.unparse(d)
-        if 'cache' in txt.lower():
-            used.add('@' + txt)
-    return used
+    """see pyvc.intake.hidden_state"""
+    return intake.hidden_state(qualname)
